@@ -117,7 +117,7 @@ pub fn relevant(property: &str, class: &str) -> bool {
     match property {
         "C16" => matches!(class, "ENC!=REF" | "LEN" | "ROUNDTRIP" | "MASKED-FAULT" | "ENC-PANIC" | "ENC-STEPS" | "PANIC" | "STEPS" | "ENC-FAIL" | "PRIM!=" | "NONCANON" | "LOST-WRITE" | "PREFIX"),
         "C17" => matches!(class, "PANIC" | "STEPS" | "NONCANON" | "PREFIX" | "TORN-OK" | "LIE" | "NONMINIMAL"),
-        "C04" => matches!(class, "NONCANON" | "ORDER" | "GEN-PANIC"),
+        "C04" => matches!(class, "NONCANON" | "ORDER" | "GEN-PANIC" | "NOREJECT"),
         _ => false,
     }
 }
